@@ -6,7 +6,17 @@ Input engine over four layers of *input text / dictionaries*:
      upper-case elements, unparsable text per slot, XML attributes, PIs, comments, CDATA, entities);
  (c) every single structural mutation of every node of three valid seed files (pairs on the
      smallest seed, thorough);
- (d) the same as dictionaries for DictReader.to_odml and as JSON / YAML text for ODMLReader.
+ (d) the same as dictionaries for DictReader.to_odml and as JSON / YAML text for ODMLReader;
+ (e) deep nesting: documents in which 100 ... 3000 elements (Sections, Properties, values, unknown elements, roots)
+     are nested inside one another, balanced and unbalanced, and the nested dictionaries / lists for the dictionary
+     reader and as JSON / YAML text;
+ (f) pumped input: one run of 30 / 64 / 5000 repetitions of a single unit (white space of every kind, BOM, digits,
+     separators, brackets, quotes, markup, whole elements) at every place where a reader matches a regular expression,
+     splits, strips or loops: before / after / between the parts of a document, inside the XML declaration, inside
+     cardinalities, values and tuples, in every text slot, in XML attributes and names; the dictionary analogue and
+     white space / indicator runs around JSON / YAML text.  Every input of (e) and (f) runs under a watchdog of its own
+     (5 s of processor time): an expiry is the verdict 'reader-did-not-terminate'; after two expiries the rest of a case
+     is skipped.
 Outcome invariant: a Document or ParserException (InvalidVersionException exactly for an odML
 root of another version); lenient + well-formed + current odML root never raises; every returned
 Document satisfies the tree and naming invariants; untouched seed nodes survive in lenient mode."""
@@ -22,8 +32,9 @@ PROP = "C16"
 LEVEL = "model_checking"
 RULE = ("all strings of length <=L over {< > / a \" = space & [} bare and framed; all element trees with <=2 (reduced tag set: "
         "<=3) nodes under the root x text variants per slot; every single mutation of every node of 3 seed files; the "
-        "dictionary analogue; each x strict/lenient x string/file; non-trivial = input that is well-formed and has an odML "
-        "(or Document) root")
+        "dictionary analogue; elements / dictionaries / lists nested 100..3000 deep in 14 + 8 shapes; one run of 30/64/5000 "
+        "repetitions of one unit at each of 13 XML and 5 dictionary sites; each x strict/lenient x string/file; "
+        "non-trivial = input that is well-formed and has an odML (or Document) root")
 WATCHDOG_S = 120
 
 ALPHABET = ["<", ">", "/", "a", '"', "=", " ", "&", "["]
@@ -50,32 +61,72 @@ TEXTS = {
 DEFAULT_TEXTS = ["", "x"]
 
 
+# --------------------------------------------------------------------------- watchdog per input (layers e, f)
+
+INPUT_WATCHDOG_S = 5
+MAX_EXPIRIES = 2     # per case, as in mc/hist.py and mc/par.py: do not spend 5 s on every further input of a case
+
+
+def guarded(fn, seconds=INPUT_WATCHDOG_S):
+    """fn() under a watchdog of its own inside the (wall clock) watchdog of the case runner in mc/par.py: env.Timeout is
+    raised in fn when it has used `seconds` of processor time.  Processor time, because other jobs on the machine must
+    not turn a reader that needs a second into one that 'does not terminate'; a reader that waits without computing is
+    left to the outer watchdog."""
+    import signal
+    old = signal.signal(signal.SIGPROF, env._alarm)
+    signal.setitimer(signal.ITIMER_PROF, seconds)
+    try:
+        return fn()
+    finally:
+        signal.setitimer(signal.ITIMER_PROF, 0)
+        signal.signal(signal.SIGPROF, old)
+
+
+def _deeper(fn, frames=60):
+    return fn() if frames <= 0 else _deeper(fn, frames - 1)
+
+
 # --------------------------------------------------------------------------- judging
 
-def judge_xml(text, is_file, scratch, label, fail, stats, seed_ids=None, mutated_ids=()):
-    """Run the XML reader strict and lenient on `text`; apply the outcome invariant."""
+def judge_xml(text, is_file, scratch, label, fail, stats, seed_ids=None, mutated_ids=(), call=None, seed_text=None):
+    """Run the XML reader strict and lenient on `text`; apply the outcome invariant.
+    call: None, or `guarded` - then every reader call has its own watchdog and an expiry is the verdict
+    'reader-did-not-terminate' for that entry instead of the end of the whole case."""
+    run = call or (lambda fn: fn())
     import lxml.etree as ET
     from odml.tools.xmlparser import XMLReader
     from odml.tools.parser_utils import ParserException, InvalidVersionException
     from odml.doc import BaseDocument
     data = text.encode("utf-8") if isinstance(text, str) else text
-    def parse(b):
+    def parse(b, huge=False):
         try:
-            return ET.fromstring(b, ET.XMLParser(remove_comments=True)), True
+            return ET.fromstring(b, ET.XMLParser(remove_comments=True, huge_tree=huge)), True
         except ET.XMLSyntaxError:
             return None, False
         except Exception:
             return None, False
     root, wellformed = parse(data)
+    tried = [data]
     if not wellformed and not is_file and isinstance(text, str):
         # for text that is already decoded the encoding named in an XML declaration has no meaning
         import re
         stripped = re.sub(r"^\s*<\?xml[^>]*\?>", "", text, count=1)
         if stripped != text:
-            root, wellformed = parse(stripped.encode("utf-8"))
+            tried.append(stripped.encode("utf-8"))
+            root, wellformed = parse(tried[-1])
     odml_root = wellformed and root.tag == "odML"
     other_version = odml_root and "version" in root.attrib and root.attrib["version"] != "1.1"
     current = odml_root and root.attrib.get("version") == "1.1"
+
+    def huge_odml_root():
+        # second opinion before a returned Document is called unfounded: libxml2's default resource limits (nesting
+        # depth 256, text nodes of 10 MB) are not part of XML; a reader may read text beyond them, it need not
+        for b in tried:
+            big, ok = parse(b, huge=True)
+            if ok and big.tag == "odML":
+                stats["either"] += 1
+                return True
+        return False
     outcomes = {}
     for lenient in (False, True):
         r = XMLReader(ignore_errors=lenient, show_warnings=False)
@@ -85,9 +136,9 @@ def judge_xml(text, is_file, scratch, label, fail, stats, seed_ids=None, mutated
                 path = os.path.join(scratch, "in.xml")
                 with open(path, "wb") as fh:
                     fh.write(data)
-                doc = r.from_file(path)
+                doc = run(lambda: r.from_file(path))
             else:
-                doc = r.from_string(text)
+                doc = run(lambda: r.from_string(text))
             stats["execs"] += 1
             if not isinstance(doc, BaseDocument):
                 fail("reader-returned-something-else", entry, label, type(doc).__name__)
@@ -98,13 +149,24 @@ def judge_xml(text, is_file, scratch, label, fail, stats, seed_ids=None, mutated
             bad = tree.tree_violations(objs) + tree.naming_violations(objs)
             if bad:
                 fail("returned-document-breaks-the-tree-or-naming-invariant:" + bad[0][0], entry, label, bad[0][1])
-            if not odml_root:
+            if not odml_root and not huge_odml_root():
                 fail("document-returned-for-input-without-odML-root", entry, label, None)
             if lenient and seed_ids is not None:
                 have = set(o.id for o in objs)
                 lost = sorted(i for i in seed_ids if i not in have and i not in mutated_ids)
                 if lost:
                     fail("lenient-reader-lost-valid-parts", entry, label, lost[:3])
+                touched = getattr(mutated_ids, "touched", None)
+                if touched is not None and seed_text is not None:
+                    # the object whose attribute was touched keeps its other attributes
+                    want_all = seed_attrs(seed_text)
+                    for o in objs:
+                        if o.id in touched and o.id in want_all:
+                            got = plain_attrs(o)
+                            diff = sorted(t for t, v in want_all[o.id].items() if t not in touched[o.id] and got.get(t) != v)
+                            if diff:
+                                fail("lenient-reader-lost-valid-attributes", entry, label,
+                                     [(t, want_all[o.id][t], got.get(t)) for t in diff[:3]])
         except InvalidVersionException:
             stats["execs"] += 1
             outcomes[lenient] = "invalid-version"
@@ -118,7 +180,13 @@ def judge_xml(text, is_file, scratch, label, fail, stats, seed_ids=None, mutated
             if lenient and current:
                 fail("lenient-reader-raises-on-wellformed-odML", entry, label, str(exc)[:160])
         except env.Timeout:
-            raise
+            if call is None:
+                raise
+            stats["execs"] += 1
+            stats["expired"] += 1
+            outcomes[lenient] = "did-not-terminate"
+            fail("reader-did-not-terminate", entry, label, "no answer within %d s of processor time" % INPUT_WATCHDOG_S)
+            break
         except BaseException as exc:
             stats["execs"] += 1
             outcomes[lenient] = "leak:" + type(exc).__name__
@@ -133,7 +201,10 @@ def judge_xml(text, is_file, scratch, label, fail, stats, seed_ids=None, mutated
     return outcomes
 
 
-def judge_dict(data, label, fail, stats, judged=True, seed_ids=None, mutated_ids=()):
+def judge_dict(data, label, fail, stats, judged=True, seed_ids=None, mutated_ids=(), call=None, fresh=None,
+               lenient_may_refuse=False):
+    """fresh: None, or a function that builds the dictionary anew (dictionaries too deep for copy.deepcopy)."""
+    run = call or (lambda fn: fn())
     from odml.tools.dict_parser import DictReader
     from odml.tools.parser_utils import ParserException, InvalidVersionException
     from odml.doc import BaseDocument
@@ -143,7 +214,8 @@ def judge_dict(data, label, fail, stats, judged=True, seed_ids=None, mutated_ids
         entry = "DictReader.to_odml:%s" % ("lenient" if lenient else "strict")
         r = DictReader(show_warnings=False, ignore_errors=lenient)
         try:
-            doc = r.to_odml(copy.deepcopy(data))
+            arg = copy.deepcopy(data) if fresh is None else fresh()
+            doc = run(lambda: r.to_odml(arg))
             stats["execs"] += 1
             stats["hist"]["dict:%s:document" % ("lenient" if lenient else "strict")] = stats["hist"].get(
                 "dict:%s:document" % ("lenient" if lenient else "strict"), 0) + 1
@@ -168,10 +240,15 @@ def judge_dict(data, label, fail, stats, judged=True, seed_ids=None, mutated_ids
             stats["execs"] += 1
             stats["hist"]["dict:%s:parser-exception" % ("lenient" if lenient else "strict")] = stats["hist"].get(
                 "dict:%s:parser-exception" % ("lenient" if lenient else "strict"), 0) + 1
-            if judged and lenient and shaped and not other_version:
+            if judged and lenient and shaped and not other_version and not lenient_may_refuse:
                 fail("lenient-reader-raises-on-odML-shaped-dictionary", entry, label, str(exc)[:160])
         except env.Timeout:
-            raise
+            if call is None:
+                raise
+            stats["execs"] += 1
+            stats["expired"] += 1
+            fail("reader-did-not-terminate", entry, label, "no answer within %d s of processor time" % INPUT_WATCHDOG_S)
+            break
         except BaseException as exc:
             stats["execs"] += 1
             stats["either" if not judged else "leaks"] += 1
@@ -180,21 +257,41 @@ def judge_dict(data, label, fail, stats, judged=True, seed_ids=None, mutated_ids
     stats["wellformed"] += int(bool(shaped))
 
 
-def judge_text(fmt, text, label, fail, stats, scratch, judged=True):
-    """JSON / YAML text through ODMLReader (string and file)."""
+def judge_text(fmt, text, label, fail, stats, scratch, judged=True, call=None, decodable_only=False):
+    """JSON / YAML text through ODMLReader (string and file).
+    decodable_only: text that json.loads / yaml.safe_load themselves refuse (nesting beyond their limits) is executed
+    but not judged ('JSON / YAML text that is not decodable at all is outside the statement'); the oracle's own decoding
+    runs deeper in the stack than the reader's, so that text it accepts is text the reader's decoder accepts too."""
+    run = call or (lambda fn: fn())
     from odml.tools.odmlparser import ODMLReader
     from odml.tools.parser_utils import ParserException
     from odml.doc import BaseDocument
+    if decodable_only and judged:
+        try:
+            if fmt == "JSON":
+                decoded = run(lambda: _deeper(lambda: json.loads(text)))
+            else:
+                import yaml
+                decoded = run(lambda: _deeper(lambda: yaml.safe_load(text)))
+            # a root (or Document) that is no dictionary is a wrong container type: executed, not judged (as in layer d)
+            judged = isinstance(decoded, dict) and isinstance(decoded.get("Document", {}), dict)
+            if not judged:
+                stats["either"] += 1
+        except BaseException:   # includes the watchdog: the decoder, not the reader, is slow then
+            stats["either"] += 1
+            k = "%s:text-refused-by-the-decoder-itself" % fmt.lower()
+            stats["hist"][k] = stats["hist"].get(k, 0) + 1
+            return
     for how in ("from_string", "from_file"):
         entry = "ODMLReader(%s).%s" % (fmt, how)
         try:
             if how == "from_string":
-                doc = ODMLReader(fmt, show_warnings=False).from_string(text)
+                doc = run(lambda: ODMLReader(fmt, show_warnings=False).from_string(text))
             else:
                 path = os.path.join(scratch, "in." + fmt.lower())
                 with open(path, "w", encoding="utf-8") as fh:
                     fh.write(text)
-                doc = ODMLReader(fmt, show_warnings=False).from_file(path)
+                doc = run(lambda: ODMLReader(fmt, show_warnings=False).from_file(path))
             stats["execs"] += 1
             if isinstance(doc, BaseDocument):
                 objs = tree.closure([doc])
@@ -204,7 +301,13 @@ def judge_text(fmt, text, label, fail, stats, scratch, judged=True):
         except ParserException:
             stats["execs"] += 1
         except env.Timeout:
-            raise
+            if call is None:
+                raise
+            stats["execs"] += 1
+            stats["expired"] += 1
+            if judged:
+                fail("reader-did-not-terminate", entry, label, "no answer within %d s of processor time" % INPUT_WATCHDOG_S)
+            break
         except BaseException as exc:
             stats["execs"] += 1
             if judged:
@@ -334,12 +437,67 @@ MUT_TEXTS = ["", "x", "[", "(1,2)", "2020-01-02", "not-an-id", "\n  ", "1"]
 RETAGS = ["section", "property", "value", "name", "type", "id", "foo", "odML", "val_cardinality", "link"]
 
 
+class Mids(set):
+    """ids a mutation may legitimately remove or replace; `touched`: id of the object -> tags of its plain attributes
+    the mutation touched (every other plain attribute of that object is a valid part and has to survive)."""
+    touched = None
+
+
+COUPLED = {"value": ("value", "type"), "type": ("value", "type")}
+OBJ_ATTRS = {
+    "Document": [("author", "author"), ("version", "version"), ("date", "date"), ("repository", "repository")],
+    "Section": [("name", "name"), ("type", "type"), ("definition", "definition"), ("reference", "reference"),
+                ("repository", "repository"), ("link", "link"), ("include", "include"),
+                ("sec_cardinality", "sec_cardinality"), ("prop_cardinality", "prop_cardinality")],
+    "Property": [("name", "name"), ("type", "dtype"), ("unit", "unit"), ("uncertainty", "uncertainty"),
+                 ("definition", "definition"), ("reference", "reference"), ("value_origin", "value_origin"),
+                 ("dependency", "dependency"), ("dependencyvalue", "dependency_value"), ("value", "values"),
+                 ("val_cardinality", "val_cardinality")],
+}
+
+
+def plain_attrs(obj):
+    """tag -> repr of the plain attribute, for the comparison of surviving objects with the seed"""
+    kind = type(obj).__name__.replace("Base", "")
+    return {tag: repr(getattr(obj, attr, None)) for tag, attr in OBJ_ATTRS.get(kind, [])}
+
+
+_SEED_ATTRS = {}
+
+
+def seed_attrs(xml_text):
+    """id -> plain attributes of the object, read from the unmutated seed"""
+    if xml_text not in _SEED_ATTRS:
+        from odml.tools.xmlparser import XMLReader
+        doc = XMLReader(show_warnings=False).from_string(xml_text)
+        _SEED_ATTRS[xml_text] = {o.id: plain_attrs(o) for o in tree.closure([doc])}
+    return _SEED_ATTRS[xml_text]
+
+
 def mutations(xml_text):
     """All single mutations of every element below the root: (label, mutated text, ids inside the mutated node)."""
     import lxml.etree as ET
     root = ET.fromstring(xml_text.encode())
     nodes = [n for n in root.iter() if n is not root]
     out = []
+
+    def attr_level(n):
+        """For a mutation that only touches one plain attribute element of an object (delete / duplicate / new text /
+        XML attribute): nothing but that attribute (and what is coupled to it) is forgiven - the object keeps its id
+        and its other attributes.  None when n is not such an element."""
+        holder = n.getparent()
+        if n.tag in ("section", "property") or len(n) or holder is None or holder.tag not in ("section", "property", "odML"):
+            return None
+        hid = holder.find("id")
+        m = Mids()
+        if hid is None:
+            return None
+        if n.tag == "id":
+            m.add(hid.text)
+            m.touched = {}
+        else:
+            m.touched = {hid.text: set(COUPLED.get(n.tag, (n.tag,)))}
+        return m
 
     def ids_under(n):
         """ids the mutation of node n may legitimately remove or replace.
@@ -367,15 +525,18 @@ def mutations(xml_text):
             ns = [n for n in r.iter() if n is not r]
             return r, ns
         base_ids = ids_under(nodes[idx])
+        narrow = attr_level(nodes[idx])
+        if narrow is None:
+            narrow = base_ids
         tag = nodes[idx].tag
         # delete
         r, ns = fresh()
         ns[idx].getparent().remove(ns[idx])
-        out.append(("delete:%s" % tag, ET.tostring(r).decode(), base_ids))
+        out.append(("delete:%s" % tag, ET.tostring(r).decode(), narrow))
         # duplicate
         r, ns = fresh()
         ns[idx].addnext(copy.deepcopy(ns[idx]))
-        out.append(("duplicate:%s" % tag, ET.tostring(r).decode(), base_ids))
+        out.append(("duplicate:%s" % tag, ET.tostring(r).decode(), narrow))
         # re-tag
         for t in RETAGS:
             if t == tag:
@@ -404,11 +565,11 @@ def mutations(xml_text):
             for x in MUT_TEXTS:
                 r, ns = fresh()
                 ns[idx].text = x
-                out.append(("text:%s=%r" % (tag, x), ET.tostring(r).decode(), base_ids))
+                out.append(("text:%s=%r" % (tag, x), ET.tostring(r).decode(), narrow))
         # XML attribute
         r, ns = fresh()
         ns[idx].set("attr", "1")
-        out.append(("attribute:%s" % tag, ET.tostring(r).decode(), base_ids))
+        out.append(("attribute:%s" % tag, ET.tostring(r).decode(), narrow))
     return out
 
 
@@ -514,7 +675,9 @@ def dict_mutations():
             d = copy.deepcopy(base)
             lst = get(d, p[:-1])
             lst.append(copy.deepcopy(lst[key]))
-            out.append(("duplicate-element", d, True, ids))
+            # only the duplicated object (two objects of one name and id: one of them has to go) and what lies
+            # below it may vanish; its siblings and its parent are valid parts
+            out.append(("duplicate-element", d, True, ids_of(base, p)))
     out.append(("root-list", [base], False, set()))
     out.append(("root-none", None, False, set()))
     out.append(("no-version", {"Document": base["Document"]}, True, set()))
@@ -522,6 +685,354 @@ def dict_mutations():
     out.append(("version-number", {"Document": base["Document"], "odml-version": 1.1}, True, set()))
     out.append(("no-document", {"odml-version": "1.1"}, True, set()))
     out.append(("extra-root-key", dict(base, extra=1), True, set()))
+    return out
+
+
+# --------------------------------------------------------------------------- layer (e): deep nesting
+
+DEPTHS = {"quick": [100, 250, 254, 255, 256, 300, 400, 1000, 3000],
+          "thorough": [64, 100, 128, 200, 250, 254, 255, 256, 257, 300, 320, 330, 335, 340, 400, 500, 990, 1000, 2000, 3000,
+                       10000]}
+FRAME = '<odML version="1.1">%s</odML>'
+DEEP_XML_SHAPES = ["sections-named", "sections-same-name", "sections-bare", "sections-head-last", "property-at-the-bottom",
+                   "unknown-elements", "properties-nested", "values-nested", "names-nested", "section-property-alternating",
+                   "roots-nested", "other-root", "never-closed", "closed-too-often"]
+# Depth from which the lenient dictionary reader may answer with a ParserException ("nested too deeply"): deeper than
+# any odML XML file can be under libxml2's default nesting limit (256), so deeper than anything the library itself can
+# exchange; below it the lenient never-raises clause applies in full.
+DICT_DEPTH_LIMIT_ALLOWED = 256
+DEEP_DICT_SHAPES = ["sections-named", "sections-same-name", "sections-bare", "property-at-the-bottom", "value-nested-lists",
+                    "attribute-nested-dicts", "unknown-key-nested-dicts", "unknown-key-nested-lists"]
+
+
+def deep_xml(shape, n):
+    """One document in which `n` elements are nested inside one another."""
+    named = "".join("<section><name>s%d</name><type>t</type>" % i for i in range(n))
+    if shape == "sections-named":
+        return FRAME % (named + "</section>" * n)
+    if shape == "sections-same-name":
+        return FRAME % ("<section><name>s</name><type>t</type>" * n + "</section>" * n)
+    if shape == "sections-bare":
+        return FRAME % ("<section>" * n + "</section>" * n)
+    if shape == "sections-head-last":
+        return FRAME % ("<section>" * n + "<name>s</name><type>t</type></section>" * n)
+    if shape == "property-at-the-bottom":
+        return FRAME % (named + "<property><name>p</name><value>[1,2]</value><type>int</type></property>" + "</section>" * n)
+    if shape == "unknown-elements":
+        return FRAME % ("<foo>" * n + "</foo>" * n)
+    if shape == "properties-nested":
+        return FRAME % ("<section><name>s</name><type>t</type>" + "<property><name>p</name>" * n + "</property>" * n + "</section>")
+    if shape == "values-nested":
+        return FRAME % ("<section><name>s</name><type>t</type><property><name>p</name>" + "<value>" * n + "1" + "</value>" * n +
+                        "</property></section>")
+    if shape == "names-nested":
+        return FRAME % ("<section><type>t</type>" + "<name>" * n + "s" + "</name>" * n + "</section>")
+    if shape == "section-property-alternating":
+        return FRAME % ("<section><name>s</name><type>t</type><property><name>p</name>" * (n // 2) +
+                        "</property></section>" * (n // 2))
+    if shape == "roots-nested":
+        return '<odML version="1.1">' * n + "</odML>" * n
+    if shape == "other-root":
+        return "<a>" * n + "</a>" * n
+    if shape == "never-closed":
+        return '<odML version="1.1">' + named
+    if shape == "closed-too-often":
+        return FRAME % (named + "</section>" * (n + 1))
+    raise KeyError(shape)
+
+
+def deep_dict(shape, n):
+    """The dictionary analogue, built from the inside out (no recursion in the harness)."""
+    def doc(secs, **more):
+        return {"odml-version": "1.1", "Document": dict({"sections": secs}, **more)}
+    if shape in ("sections-named", "sections-same-name", "sections-bare", "property-at-the-bottom"):
+        inner = []
+        for i in range(n - 1, -1, -1):
+            sec = {} if shape == "sections-bare" else {"name": "s" if shape == "sections-same-name" else "s%d" % i, "type": "t"}
+            if shape == "property-at-the-bottom" and i == n - 1:
+                sec["properties"] = [{"name": "p", "value": [1, 2], "type": "int"}]
+            sec["sections"] = inner
+            inner = [sec]
+        return doc(inner)
+    if shape == "value-nested-lists":
+        v = 1
+        for _ in range(n):
+            v = [v]
+        return doc([{"name": "s", "type": "t", "properties": [{"name": "p", "value": v}]}])
+    if shape in ("attribute-nested-dicts", "unknown-key-nested-dicts", "unknown-key-nested-lists"):
+        v = 1
+        for _ in range(n):
+            v = [v] if shape.endswith("lists") else {"k": v}
+        return doc([{"name": "s", "type": "t", "definition" if shape.startswith("attribute") else "foo": v}])
+    raise KeyError(shape)
+
+
+def flow_text(data):
+    """JSON text (which is YAML flow style as well) of nested dictionaries / lists, written without recursion."""
+    out, todo = [], [(True, data)]
+    while todo:
+        is_value, x = todo.pop()
+        if not is_value:
+            out.append(x)
+        elif isinstance(x, dict):
+            seq = [(False, "{")]
+            for i, (k, v) in enumerate(x.items()):
+                seq += [(False, (", " if i else "") + json.dumps(str(k)) + ": "), (True, v)]
+            todo.extend(reversed(seq + [(False, "}")]))
+        elif isinstance(x, list):
+            seq = [(False, "[")]
+            for i, v in enumerate(x):
+                seq += [(False, ", ")] if i else []
+                seq.append((True, v))
+            todo.extend(reversed(seq + [(False, "]")]))
+        else:
+            out.append(json.dumps(x))
+    return "".join(out)
+
+
+# --------------------------------------------------------------------------- layer (f): pumped input
+
+# 10000 is the longest run: libxml2 needs quadratic time for some of them (100000 blanks inside an unterminated XML
+# declaration, 100000 attributes: more than 5 s on the unchanged tree) - slow, which the statement does not forbid
+PUMPS = {"quick": [30, 64, 5000], "thorough": [24, 27, 30, 40, 64, 100, 1000, 5000, 10000]}
+LIST_PUMP_MAX = 500   # runs of whole elements / list items (objects are created for them: a second per 5000 in the readers)
+WHITE = [("blank", " "), ("newline", "\n"), ("tab", "\t"), ("crlf", "\r\n"), ("mixed", " \n\t"), ("bom", "\ufeff"),
+         ("bom-blank", "\ufeff "), ("nbsp", "\u00a0"), ("formfeed", "\x0c"), ("line-separator", "\u2028")]
+DECL = '<?xml version="1.0" encoding="UTF-8"?>'
+SEC_T = "<section><name>%s</name><type>t</type>%s</section>"
+PROP_T = "<property><name>%s</name>%s</property>"
+SMALL = FRAME % (SEC_T % ("a", PROP_T % ("p", "<value>[1,2]</value><type>int</type>")))
+
+
+def run_of(unit, n):
+    """n characters: `unit` over and over"""
+    return (unit * (n // len(unit) + 1))[:n]
+
+
+def _in_value(text, dtype=None):
+    return FRAME % (SEC_T % ("a", PROP_T % ("p", "<value>%s</value>" % text + ("<type>%s</type>" % dtype if dtype else ""))))
+
+
+def _esc(text):
+    return text.replace("&", "&amp;").replace("<", "&lt;").replace(">", "&gt;")
+
+
+def pumped_xml(site, n):
+    """(variant, text) - every text holds one run of n repetitions of a single unit at a place where the readers
+    match a regular expression, split, strip or loop."""
+    out = []
+    if site in ("lead-document", "lead-declaration", "lead-other", "lead-alone", "trail", "between"):
+        for nm, u in WHITE:
+            r = run_of(u, n)
+            if site == "lead-document":
+                out.append((nm, r + SMALL))
+            elif site == "lead-declaration":
+                out.append((nm, r + DECL + "\n" + SMALL))
+                out.append((nm + "+no-root", r + DECL))
+            elif site == "lead-other":
+                out += [(nm + "+x", r + "x"), (nm + "+<", r + "<"), (nm + "+other-root", r + "<a/>"),
+                        (nm + "+<?", r + "<?"), (nm + "+<?xm", r + "<?xm"), (nm + "+pi", r + "<?xmlx ?>" + SMALL),
+                        (nm + "+old-version", r + '<odML version="1"/>')]
+            elif site == "lead-alone":
+                out.append((nm, r))
+            elif site == "trail":
+                out += [(nm, SMALL + r), (nm + "+x", SMALL + r + "x"), (nm + "+declaration", DECL + SMALL + r)]
+            else:
+                out += [(nm + "/declaration-root", DECL + r + SMALL),
+                        (nm + "/root-section", SMALL.replace("<section>", r + "<section>", 1)),
+                        (nm + "/in-name", SMALL.replace("<name>a</name>", "<name>%sa%s</name>" % (r, r), 1)),
+                        (nm + "/in-tag", SMALL.replace("<section>", "<section%s>" % r, 1)),
+                        (nm + "/in-root-tag", SMALL.replace('<odML version="1.1">', '<odML%sversion="1.1"%s>' % (r, r), 1))]
+    elif site == "declaration":
+        for nm, u in WHITE[:5] + [("x", "x"), ("question-mark", "?"), ("greater", ">"), ("less", "<"), ("quote", '"'),
+                                  ("<?xml", "<?xml"), ("?>", "?>"), ("declaration", DECL), ("<?xml?>", "<?xml?>")]:
+            r = run_of(u, n)
+            out += [(nm + "/after-<?xml", "<?xml" + r + 'version="1.0"?>' + SMALL),
+                    (nm + "/before-?>", '<?xml version="1.0"' + r + "?>" + SMALL),
+                    (nm + "/unterminated", "<?xml" + r),
+                    (nm + "/unterminated+document", "<?xml " + r + SMALL),
+                    (nm + "/in-encoding", '<?xml version="1.0" encoding="%s"?>' % r.replace('"', "'") + SMALL),
+                    (nm + "/alone", r)]
+    elif site == "cardinality":
+        for nm, u in [("digit-1", "1"), ("digit-0", "0"), ("digit-9", "9"), ("blank", " "), ("comma", ","), ("open", "("),
+                      ("close", ")"), ("minus", "-"), ("plus", "+"), ("dot", "."), ("arabic-digit", "\u0663"), ("newline", "\n"),
+                      ("None", "None"), ("pair", "(1,2)")]:
+            r = run_of(u, n)
+            for form, t in (("(1,R)", "(1,%s)" % r), ("(R,2)", "(%s,2)" % r), ("(R)", "(%s)" % r), ("R", r),
+                            ("(1,2R)", "(1,2%s)" % r), ("R(1,2)", r + "(1,2)"), ("(1,2)R", "(1,2)" + r)):
+                out.append(("%s/%s/section" % (nm, form), FRAME % (SEC_T % ("a", "<sec_cardinality>%s</sec_cardinality>" % t))))
+                out.append(("%s/%s/value" % (nm, form),
+                            FRAME % (SEC_T % ("a", PROP_T % ("p", "<value>1</value><val_cardinality>%s</val_cardinality>" % t)))))
+    elif site == "value":
+        for nm, u in [("comma", ","), ("dquote", '"'), ("open-bracket", "["), ("close-bracket", "]"), ("open", "("), ("close", ")"),
+                      ("semicolon", ";"), ("blank", " "), ("newline", "\n"), ("letter", "a"), ("digit", "1"), ("quote", "'"),
+                      ("backslash", "\\"), ("tuple,", "(1;2),"), ('"a",', '"a",'), ("1;", "1;"), ("amp", "&"), ("dot", "."),
+                      ("minus", "-"), ("e", "e")]:
+            r = _esc(run_of(u, n))
+            for dtype in (None, "string", "int", "float", "2-tuple", "date", "boolean"):
+                for form, t in (("R", r), ("[R]", "[%s]" % r), ("[R", "[" + r), ("(1R)", "(1%s)" % r), ("[1,R,2]", "[1,%s,2]" % r)):
+                    if dtype in ("float", "date", "boolean") and form != "[R]":
+                        continue
+                    out.append(("%s/%s/%s" % (nm, form, dtype), _in_value(t, dtype)))
+        for k in (n, n + 1, n - 1):
+            out.append(("tuple/%s-elements-for-%d-tuple" % ("n" if k == n else "n+1" if k > n else "n-1", n),
+                        _in_value("(" + ";".join(["1"] * k) + ")", "%d-tuple" % n)))
+        out.append(("tuple/n-tuples", _in_value("[" + ",".join(["(1;2)"] * n) + "]", "2-tuple")))
+    elif site == "text-slots":
+        slots = [("name", SEC_T % ("%s", "")), ("type", "<section><name>a</name><type>%s</type></section>"),
+                 ("id", SEC_T % ("a", "<id>%s</id>")), ("doc-id", "<id>%s</id>"), ("date", "<date>%s</date>"),
+                 ("version", "<version>%s</version>"), ("author", "<author>%s</author>"),
+                 ("repository", "<repository>%s</repository>"), ("link", SEC_T % ("a", "<link>%s</link>") + SEC_T % ("b", "")),
+                 ("include", SEC_T % ("a", "<include>%s</include>")), ("definition", SEC_T % ("a", "<definition>%s</definition>")),
+                 ("dtype", SEC_T % ("a", PROP_T % ("p", "<value>1</value><type>%s</type>"))),
+                 ("unit", SEC_T % ("a", PROP_T % ("p", "<value>1</value><unit>%s</unit>"))),
+                 ("uncertainty", SEC_T % ("a", PROP_T % ("p", "<value>1</value><uncertainty>%s</uncertainty>"))),
+                 ("property-name", SEC_T % ("a", PROP_T % ("%s", "<value>1</value>"))),
+                 ("dependency", SEC_T % ("a", PROP_T % ("p", "<value>1</value><dependency>%s</dependency>")))]
+        for nm, u in [("letter", "a"), ("digit", "1"), ("slash", "/"), ("dot", "."), ("up", "../"), ("minus", "-"), ("blank", " "),
+                      ("superscript", "\u00b2"), ("colon", ":"), ("zero", "0"), ("percent", "%"), ("hash", "#")]:
+            r = run_of(u, n)
+            for slot, tmpl in slots:
+                out.append(("%s/%s" % (nm, slot), FRAME % (tmpl.replace("%s", r, 1).replace("%s", ""))))
+                if slot == "dtype":
+                    out.append(("%s/%s-tuple" % (nm, slot), FRAME % tmpl.replace("%s", r + "-tuple", 1)))
+                if slot in ("link", "include"):
+                    out.append(("%s/%s-then-name" % (nm, slot), FRAME % tmpl.replace("%s", r + "b", 1)))
+                    out.append(("%s/file-url-%s" % (nm, slot), FRAME % tmpl.replace("%s", "file:///" + r + "#b", 1)))
+    elif site == "xml-attributes":
+        for nm, u in [("letter", "a"), ("digit", "1"), ("blank", " "), ("dot", "."), ("amp", "&amp;"), ("apostrophe", "'")]:
+            r = run_of(u, n) if u != "&amp;" else u * n
+            out += [(nm + "/other-attribute", SMALL.replace('version="1.1"', 'version="1.1" x="%s"' % r, 1)),
+                    (nm + "/version-tail", SMALL.replace('version="1.1"', 'version="1.1%s"' % r, 1)),
+                    (nm + "/version-head", SMALL.replace('version="1.1"', 'version="%s1.1"' % r, 1)),
+                    (nm + "/version", SMALL.replace('version="1.1"', 'version="%s"' % r, 1)),
+                    (nm + "/section-attribute", SMALL.replace("<section>", '<section x="%s">' % r, 1)),
+                    (nm + "/value-attribute", SMALL.replace("<value>", '<value x="%s">' % r, 1))]
+        attrs = " ".join('a%d="1"' % i for i in range(n))
+        out += [("many/root-attributes", SMALL.replace('version="1.1"', 'version="1.1" ' + attrs, 1)),
+                ("many/section-attributes", SMALL.replace("<section>", "<section %s>" % attrs, 1)),
+                ("long/element-name", FRAME % ("<%s/>" % ("a" * n))),
+                ("long/root-name", "<%s/>" % ("a" * n)),
+                ("long/root-name-odML", '<odML%s version="1.1"/>' % ("L" * n)),
+                ("long/namespace", '<odML version="1.1" xmlns="%s"/>' % ("u" * n)),
+                ("long/prefix", '<%s:odML version="1.1" xmlns:%s="urn:x"/>' % ("p" * n, "p" * n))]
+    elif site == "markup":
+        for nm, u in [("less", "<"), ("greater", ">"), ("amp", "&"), ("slash", "/"), ("</", "</"), ("<a>", "<a>"),
+                      ("<!--", "<!--"), ("]]>", "]]>"), ("<![CDATA[", "<![CDATA["), ("&#", "&#"), ("<?", "<?"), ("dquote", '"'),
+                      ("equals", "="), ("<odML>", "<odML>"), ("</odML>", "</odML>"), ("<section>", "<section>")]:
+            r = u * n
+            out += [(nm + "/alone", r), (nm + "/framed", FRAME % r), (nm + "/before-document", r + SMALL),
+                    (nm + "/after-document", SMALL + r)]
+        out += [("entity/&amp;", _in_value("&amp;" * n)), ("entity/&#32;", _in_value("&#32;" * n)),
+                ("entity/&#x", _in_value("&#x" + "0" * n + "41;")), ("entity/undefined", _in_value("&" + "e" * n + ";")),
+                ("comment/long", FRAME % ("<!--" + "x" * n + "-->") + ""), ("comment/dashes", FRAME % ("<!--" + "-" * n + "-->")),
+                ("comment/many", FRAME % ("<!-- c -->" * n)), ("comment/before-root", "<!--" + " " * n + "-->" + SMALL),
+                ("cdata/brackets", _in_value("<![CDATA[" + "]" * n + "]]>")), ("cdata/many", _in_value("<![CDATA[a]]>" * n)),
+                ("pi/long", "<?pi " + "x" * n + "?>" + SMALL), ("pi/many", FRAME % ("<?pi x?>" * n)),
+                ("doctype/long-entity", '<!DOCTYPE odML [<!ENTITY e "%s">]>' % ("x" * n) + _in_value("&e;")),
+                ("doctype/many-references", '<!DOCTYPE odML [<!ENTITY e "x">]>' + _in_value("&e;" * n)),
+                ("doctype/many-entities", "<!DOCTYPE odML [%s]>" % "".join('<!ENTITY e%d "x">' % i for i in range(n)) + SMALL)]
+        # entity amplification: k levels of tenfold expansion (k grows with the logarithm of n)
+        for k in sorted(set([2, 3, len(str(n)), len(str(n)) + 2])):
+            ents = '<!ENTITY e0 "x">' + "".join('<!ENTITY e%d "%s">' % (i, ("&e%d;" % (i - 1)) * 10) for i in range(1, k + 1))
+            out.append(("doctype/amplification-%d-levels" % k, "<!DOCTYPE odML [%s]>" % ents + _in_value("&e%d;" % k)))
+    elif site == "siblings":
+        m = n = min(n, LIST_PUMP_MAX)
+        out += [("sections", FRAME % "".join(SEC_T % ("s%d" % i, "") for i in range(m))),
+                ("sections-same-name", FRAME % (SEC_T % ("s", "") * m)),
+                ("sections-bare", FRAME % ("<section/>" * m)),
+                ("subsections-same-name", FRAME % (SEC_T % ("o", SEC_T % ("s", "") * m))),
+                ("properties", FRAME % (SEC_T % ("a", "".join(PROP_T % ("p%d" % i, "<value>1</value>") for i in range(m))))),
+                ("properties-same-name", FRAME % (SEC_T % ("a", PROP_T % ("p", "<value>1</value>") * m))),
+                ("value-elements", FRAME % (SEC_T % ("a", PROP_T % ("p", "<value>1</value>" * n)))),
+                ("name-elements", FRAME % ("<section>" + "<name>a</name>" * n + "<type>t</type></section>")),
+                ("unknown-elements", FRAME % ("<foo/>" * n)),
+                ("unknown-elements-in-section", FRAME % (SEC_T % ("a", "<foo>x</foo>" * n))),
+                ("doc-ids", FRAME % (("<id>%s</id>" % (VID % 1)) * n)),
+                ("doc-dates", FRAME % ("<date>x</date>" * n)),
+                ("values-in-one-element", _in_value("[" + ",".join(["1"] * n) + "]", "int")),
+                ("links", FRAME % ("".join(SEC_T % ("s%d" % i, "<link>/s%d</link>" % ((i + 1) % m)) for i in range(m))))]
+    else:
+        raise KeyError(site)
+    return out
+
+
+XML_SITES = ["lead-document", "lead-declaration", "lead-other", "lead-alone", "trail", "between", "declaration", "cardinality",
+             "value", "text-slots", "xml-attributes", "markup", "siblings"]
+DICT_SITES = ["attribute-text", "cardinality", "value", "lists", "text-lead"]
+
+
+def pumped_dict(site, n):
+    """(variant, dictionary or None, text or None): pumped dictionaries (and pumped JSON / YAML text around a valid one)."""
+    def doc(sec=None, prop=None, **more):
+        s = dict({"name": "s", "type": "t"}, **(sec or {}))
+        if prop is not None:
+            s["properties"] = [dict({"name": "p"}, **prop)]
+        return {"odml-version": "1.1", "Document": dict({"sections": [s]}, **more)}
+    out = []
+    units = [("letter", "a"), ("digit", "1"), ("blank", " "), ("slash", "/"), ("comma", ","), ("open", "("), ("semicolon", ";"),
+             ("dquote", '"'), ("open-bracket", "["), ("newline", "\n"), ("minus", "-"), ("dot", ".")]
+    if site == "attribute-text":
+        for nm, u in units:
+            r = run_of(u, n)
+            for key in ("name", "type", "id", "definition", "reference", "repository", "link", "include"):
+                out.append(("%s/section-%s" % (nm, key), doc(sec={key: r}), None))
+            for key in ("name", "id", "type", "unit", "uncertainty", "definition", "dependency", "value_origin"):
+                out.append(("%s/property-%s" % (nm, key), doc(prop={key: r, "value": [1]}), None))
+            out.append(("%s/property-type-tuple" % nm, doc(prop={"type": r + "-tuple", "value": "(1;2)"}), None))
+            for key in ("id", "author", "date", "version", "repository"):
+                out.append(("%s/document-%s" % (nm, key), doc(**{key: r}), None))
+            out.append(("%s/unknown-key" % nm, doc(sec={r: 1}), None))
+            out.append(("%s/odml-version" % nm, dict(doc(), **{"odml-version": r}), None))
+            out.append(("%s/odml-version-tail" % nm, dict(doc(), **{"odml-version": "1.1" + r}), None))
+    elif site == "cardinality":
+        for nm, u in units + [("None", "None")]:
+            r = run_of(u, n)
+            for form, t in (("(1,R)", "(1,%s)" % r), ("(R,2)", "(%s,2)" % r), ("R", r), ("[1,R]", [1, r]), ("[R,None]", [r, None])):
+                out.append(("%s/%s/section" % (nm, form), doc(sec={"sec_cardinality": t}), None))
+                out.append(("%s/%s/value" % (nm, form), doc(prop={"value": [1], "val_cardinality": t}), None))
+        m = min(n, LIST_PUMP_MAX)
+        for form, t in (("n-ones", [1] * m), ("n-pairs", [[1, 2]] * m), ("big-number", [1, int("1" * min(n, 4000))]),
+                        ("n-nones", [None] * m)):
+            out.append(("list/%s/section" % form, doc(sec={"prop_cardinality": t}), None))
+            out.append(("list/%s/value" % form, doc(prop={"value": [1], "val_cardinality": t}), None))
+    elif site == "value":
+        for nm, u in units + [("tuple,", "(1;2),"), ("1;", "1;"), ('"a",', '"a",')]:
+            r = run_of(u, n)
+            for dtype in (None, "string", "int", "2-tuple", "date"):
+                for form, t in (("R", r), ("[R]", [r]), ("text-[R]", "[%s]" % r), ("(1R)", "(1%s)" % r)):
+                    out.append(("%s/%s/%s" % (nm, form, dtype), doc(prop=dict({"value": t}, **({"type": dtype} if dtype else {}))),
+                                None))
+        out.append(("tuple/n-elements", doc(prop={"value": "(" + ";".join(["1"] * n) + ")", "type": "%d-tuple" % n}), None))
+        out.append(("tuple/n-tuples-text", doc(prop={"value": "[" + ",".join(["(1;2)"] * n) + "]", "type": "2-tuple"}), None))
+        m = min(n, LIST_PUMP_MAX)
+        out.append(("tuple/n-tuples-list", doc(prop={"value": ["(1;2)"] * m, "type": "2-tuple"}), None))
+        out.append(("n-values", doc(prop={"value": [1] * m, "type": "int"}), None))
+        out.append(("n-values-mixed", doc(prop={"value": [1, "x"] * (m // 2)}), None))
+    elif site == "lists":
+        m = n = min(n, LIST_PUMP_MAX)
+        sec = {"name": "s", "type": "t"}
+        out += [("sections", {"odml-version": "1.1", "Document": {"sections": [dict(sec, name="s%d" % i) for i in range(m)]}}, None),
+                ("sections-same-name", {"odml-version": "1.1", "Document": {"sections": [dict(sec) for _ in range(m)]}}, None),
+                ("sections-empty", {"odml-version": "1.1", "Document": {"sections": [{} for _ in range(m)]}}, None),
+                ("properties", doc(sec={"properties": [{"name": "p%d" % i, "value": [1]} for i in range(m)]}), None),
+                ("properties-same-name", doc(sec={"properties": [{"name": "p", "value": [1]} for _ in range(m)]}), None),
+                ("unknown-keys", doc(sec=dict(("k%d" % i, 1) for i in range(n))), None),
+                ("unknown-root-keys", dict(doc(), **dict(("k%d" % i, 1) for i in range(n))), None)]
+    elif site == "text-lead":
+        base = doc(prop={"value": [1, 2], "type": "int"})
+        jt = json.dumps(base)
+        for nm, u in WHITE:
+            r = run_of(u, n)
+            out += [(nm + "/lead", None, r + jt), (nm + "/trail", None, jt + r), (nm + "/alone", None, r),
+                    (nm + "/inside", None, jt.replace(": ", ":" + r, 1)), (nm + "/after-open", None, "{" + r + jt[1:])]
+        for nm, u in [("open-brace", "{"), ("open-bracket", "["), ("dquote", '"'), ("colon", ":"), ("comma", ","), ("minus", "-"),
+                      ("hash", "#"), ("amp", "&"), ("star", "*"), ("bang", "!"), ("percent", "%"), ("question", "?"),
+                      ("pipe", "|"), ("digit", "1"), ("dash-line", "-\n"), ("dashes", "---\n")]:
+            r = run_of(u, n)
+            out += [(nm + "/alone", None, r), (nm + "/lead", None, r + jt), (nm + "/trail", None, jt + r)]
+    else:
+        raise KeyError(site)
     return out
 
 
@@ -554,6 +1065,19 @@ def gen_cases(tier):
     d = dict_mutations()
     for i in range(0, len(d), 100):
         cases.append({"layer": "d", "slice": [i, i + 100]})
+    # (e) deep nesting, (f) pumped input: one case per shape / site, every input with a watchdog of its own
+    for kind, shapes in (("xml", DEEP_XML_SHAPES), ("dict", DEEP_DICT_SHAPES)):
+        for shape in shapes:
+            for i in range(0, len(DEPTHS[tier]), 5):
+                cases.append({"layer": "e", "kind": kind, "shape": shape, "depths": DEPTHS[tier][i:i + 5]})
+    for site in XML_SITES:
+        for n in PUMPS[tier]:
+            cases.append({"layer": "f", "kind": "xml", "site": site, "n": n, "part": [0, 1]})
+    for site in DICT_SITES:
+        for n in PUMPS[tier]:
+            k = 1 if n < 1000 else 6      # pure-Python YAML: a case with all long inputs of a site would take 10 s
+            for i in range(k):
+                cases.append({"layer": "f", "kind": "dict", "site": site, "n": n, "part": [i, k]})
     return cases
 
 
@@ -568,7 +1092,9 @@ def run_case(case):
 def _run(case, scratch):
     fails = []
     seen = set()
-    stats = {"execs": 0, "wellformed": 0, "either": 0, "leaks": 0, "hist": {}}
+    stats = {"execs": 0, "wellformed": 0, "either": 0, "leaks": 0, "expired": 0, "hist": {}}
+    only = case.get("only")   # replay of one input of a layer (e) / (f) case
+    skipped = 0
 
     def fail(clause, entry, label, observed):
         key = (clause, entry, label.split("=")[0] if case["layer"] in ("c", "d") else label.split("/")[0])
@@ -605,8 +1131,8 @@ def _run(case, scratch):
         for label, mtext, mids in muts[case["slice"][0]:case["slice"][1]]:
             if not case.get("pairs"):
                 n_inputs += 1
-                judge_xml(mtext, False, scratch, label, fail, stats, seed_ids=all_ids, mutated_ids=mids)
-                judge_xml(mtext, True, scratch, label, fail, stats, seed_ids=all_ids, mutated_ids=mids)
+                judge_xml(mtext, False, scratch, label, fail, stats, seed_ids=all_ids, mutated_ids=mids, seed_text=text)
+                judge_xml(mtext, True, scratch, label, fail, stats, seed_ids=all_ids, mutated_ids=mids, seed_text=text)
             else:
                 try:
                     second = mutations(mtext)
@@ -628,6 +1154,51 @@ def _run(case, scratch):
                 continue
             judge_text("JSON", jt, label, fail, stats, scratch, judged=judged)
             judge_text("YAML", yt, label, fail, stats, scratch, judged=judged)
+    elif case["layer"] == "e":
+        for depth in case["depths"]:
+            label = "deep-%s:%s/%d" % (case["kind"], case["shape"], depth)
+            if only is not None and label != only:
+                continue
+            if stats["expired"] >= MAX_EXPIRIES:
+                skipped += 1
+                continue
+            n_inputs += 1
+            if case["kind"] == "xml":
+                text = deep_xml(case["shape"], depth)
+                judge_xml(text, False, scratch, label, fail, stats, call=guarded)
+                judge_xml(text, True, scratch, label, fail, stats, call=guarded)
+                continue
+            shape = case["shape"]
+            text = flow_text(deep_dict(shape, depth))
+            judge_dict(deep_dict(shape, 1), label, fail, stats, call=guarded, fresh=lambda: deep_dict(shape, depth),
+                       lenient_may_refuse=depth >= DICT_DEPTH_LIMIT_ALLOWED)
+            judge_text("JSON", text, label, fail, stats, scratch, call=guarded, decodable_only=True)
+            judge_text("YAML", text, label, fail, stats, scratch, call=guarded, decodable_only=True)
+    elif case["layer"] == "f":
+        n = case["n"]
+        inputs = [(v, t, None) for v, t in pumped_xml(case["site"], n)] if case["kind"] == "xml" else [
+            (v, t, d) for v, d, t in pumped_dict(case["site"], n)]
+        for variant, text, data in inputs[case["part"][0]::case["part"][1]]:
+            label = "pump-%s:%s/%s/%d" % (case["kind"], case["site"], variant, n)
+            if only is not None and label != only:
+                continue
+            if stats["expired"] >= MAX_EXPIRIES:
+                skipped += 1
+                continue
+            n_inputs += 1
+            if case["kind"] == "xml":
+                judge_xml(text, False, scratch, label, fail, stats, call=guarded)
+                judge_xml(text, True, scratch, label, fail, stats, call=guarded)
+                continue
+            if data is not None:
+                judge_dict(data, label, fail, stats, call=guarded)
+                text = json.dumps(data)
+            judge_text("JSON", text, label, fail, stats, scratch, call=guarded, decodable_only=True)
+            judge_text("YAML", text, label, fail, stats, scratch, call=guarded, decodable_only=True)
+    if skipped:
+        stats["hist"]["<inputs skipped after %d watchdog expiries in the case>" % MAX_EXPIRIES] = skipped
+    if stats["expired"]:
+        stats["hist"]["<did not terminate>"] = stats["expired"]
     outs = []
     for k, n in stats["hist"].items():
         outs += [k] * n
@@ -642,12 +1213,32 @@ def check(tier):
         "JSON / YAML text that is not decodable at all is outside the statement (ODMLReader returns None for it)",
         "a mutation may remove the object it touches (and, for a move, the object it moves into): those ids are not demanded back",
         "includes use file: URLs that do not exist; no network",
+        "well-formed means: accepted by lxml with its default resource limits (nesting depth 256); text beyond these limits "
+        "may be read or refused with a ParserException, in lenient mode too",
+        "JSON / YAML text that json.loads / yaml.safe_load themselves refuse (nesting beyond their recursion limits) is not "
+        "handed to ODMLReader",
+        "layers e/f: 'never hangs' is judged per reader call as 5 s of processor time (the longest call on the unchanged "
+        "tree takes about 0.5 s); runs of whole elements / list items are capped at %d repetitions" % LIST_PUMP_MAX,
+        "a dictionary nested %d levels or deeper (more than an odML XML file can hold under libxml2's default limit) may be "
+        "answered with a ParserException by the lenient dictionary reader as well" % DICT_DEPTH_LIMIT_ALLOWED,
     ])
     cases = gen_cases(tier)
     for c in cases:
         c["tier"] = tier
+    # the cases of layers (e) and (f) take seconds, the others fractions of a second, and the runner cuts the list into
+    # runs of neighbours: deal the long ones out evenly (longest first) instead of leaving them together at the end
+    long_ones = sorted([c for c in cases if c["layer"] in "ef"], key=lambda c: (-c.get("n", 10 ** 6), c["kind"] != "dict"))
+    rest = [c for c in cases if c["layer"] not in "ef"]
+    step = max(len(rest) // max(len(long_ones), 1), 1)
+    cases = []
+    for i, c in enumerate(long_ones):
+        cases += [c] + rest[i * step:(i + 1) * step]
+    cases += rest[len(long_ones) * step:]
     run.bounds = {"string_length": STRING_LENGTH[tier], "alphabet": ALPHABET, "grammar_documents": len(grammar_docs(tier)),
-                  "mutations": {n: len(mutations(t)) for n, t in seeds()}, "dictionary_inputs": len(dict_mutations())}
+                  "mutations": {n: len(mutations(t)) for n, t in seeds()}, "dictionary_inputs": len(dict_mutations()),
+                  "nesting_depths": DEPTHS[tier], "nesting_shapes": {"xml": DEEP_XML_SHAPES, "dictionary": DEEP_DICT_SHAPES},
+                  "pump_lengths": PUMPS[tier], "pump_sites": {"xml": XML_SITES, "dictionary": DICT_SITES},
+                  "input_watchdog_cpu_s": INPUT_WATCHDOG_S, "expiries_before_a_case_is_cut_short": MAX_EXPIRIES}
     run.layer("cases", chunks=len(cases))
     par.run_cases(run, "checks.c16", cases, nchunks=par.JOBS * 16)
     return run.finish(reproduce=lambda f: replay(f))
@@ -656,6 +1247,8 @@ def check(tier):
 def replay(rec):
     env.reset_globals(env.SEED)
     case = dict(rec["case"])
-    case.pop("label", None)
+    label = case.pop("label", None)
+    if case.get("layer") in ("e", "f") and label is not None:
+        case["only"] = label    # every input of these layers stands alone (and may cost a whole watchdog period)
     want = rec.get("desc")
     return [f for f in run_case(case)["failures"] if want is None or f["desc"] == want] or []
